@@ -6,11 +6,13 @@ CONSTANTS
  HashSession = TRUE
  HashId = TRUE
  DedupMode = "peer+id"
+ AtomicDedup = TRUE
  AllowRelay = TRUE
  MCCfgs <- Cfg4two
  Bodies = {x, y}
  MaxFSig = 99
  MaxB = 0
+ Conc = 0
  Lists = "best"
 SYMMETRY Sym
 INVARIANTS AgreementAccepted
